@@ -363,6 +363,8 @@ def eval_expr(e, sv, c):
     if isinstance(e, (int, bool)):
         return e
     op = e[0]
+    if op == "py":
+        return bool(e[1])
     if op in ("s", "e", "d"):
         t = c.tasks.get(e[1])
         if t is None or not t.x:
@@ -960,6 +962,10 @@ def eval_buffers(sv: SpecView, c: Cand, f: Findings):
         lo, hi = bs.get("lower"), bs.get("upper")
         inb = all((lo is None or l >= lo) and (hi is None or l <= hi) for l in levels)
         f.add(prop, pre + "bounds", kinds, b3(inb), [bid, levels, lo, hi])
+        if has_unsched:
+            # "stay within bounds" is about every reported level, whoever is left out of the schedule:
+            # the inertness of the unscheduled access is C06's business, the bound itself stays C09's
+            f.add("C09", "bounds", kinds, b3(inb), [bid, levels, lo, hi])
         if not bs.get("concurrent"):
             f.add(prop, pre + "nonconcurrent_tie", kinds, b3(len(instants) == len(ev)), [bid, ev])
 
